@@ -1,3 +1,315 @@
-import SwcVerif.Gen.AlgoAffine
+import SwcVerif.Props.C12
+import SwcVerif.Refine.Affine
+/-! # C12 (and the pipelines of C03), tied to the CONTROL FLOW of the source by the imperative translator
+
+`Gen/AlgoAffine.lean` is regenerated on every run from `swcgeom/transforms/geometry.py` (the constructors of `Translate`, `Scale`,
+`Rotate`, `RotateX/Y/Z`, `AffineTransform.__init__ / __call__ / apply`, `TranslateOrigin.transform`), `swcgeom/utils/transforms.py`
+(the matrix builders), `swcgeom/core/swc.py` (`xyz`, `xyzw`) and `swcgeom/transforms/base.py` (`Transforms.__call__`).
+`RefineAffine.call_affine` proves that the generated `__call__` ∘ `apply` moves row `i` of EVERY tree (any size ≥ 1, root = the first
+row whose parent is −1) to `applyPoint M (xᵢ, yᵢ, zᵢ)` with `M = aboutRoot tm root` for `center ∈ {root, soma}` and `M = tm`
+otherwise, and returns ids / parents / types / radii as they are — so the theorems of `Props/C12.lean` about `applyPoint` / `aboutRoot`
+speak about what the classes do to whole trees.  Below they are transported to the generated classes: constructor (which matrix builder,
+which centre), then `__call__`.  `K` is any linearly ordered field, `F.div` its division, `c s` stand for `cos θ`, `sin θ`. -/
 namespace C12
+open Gen.Mat Gen.Affine Gen.Algo RefineAffine
+
+variable {K : Type} [Field K] [LinearOrder K] [Inhabited K]
+
+/-- a tree as the generated code sees it: ids, parents, types, the three coordinate columns of its points, radii -/
+abbrev GTree (K : Type) := (List Int) × ((List Int) × ((List Int) × ((List K) × ((List K) × ((List K) × (List K))))))
+
+def treeOf (ids pids types : List Int) (pts : List (Pt K)) (rs : List K) : GTree K :=
+  (ids, pids, types, colX pts, colY pts, colZ pts, rs)
+
+/-- a transform object `(self.tm, self.center)` as a function on trees: the generated `__call__` -/
+def callFn (F : Py.Fld K) (tm : List (List K)) (center : String) : GTree K → Option (GTree K) :=
+  fun t => affine_call F center tm t.1 t.2.1 t.2.2.1 t.2.2.2.1 t.2.2.2.2.1 t.2.2.2.2.2.1 t.2.2.2.2.2.2
+
+/-- `Cls(args)(tree)`: the object the generated constructor builds, then the generated `__call__` -/
+def runObj (F : Py.Fld K) (o : Option ((List (List K)) × String × (List Int) × Unit)) (t : GTree K) : Option (GTree K) :=
+  o.bind fun o => callFn F o.1 o.2.1 t
+
+/-- the hypotheses on the tree: there is a root row (parent −1), and the first one is at a position that has a point -/
+structure HasRoot (pids : List Int) (pts : List (Pt K)) (root : Pt K) : Prop where
+  mem : (-1) ∈ pids
+  at_ : pts[pids.idxOf (-1)]? = some root
+
+theorem mapPts_congr (M : List (List K)) (g : Pt K → Pt K) (h : ∀ p : Pt K, applyPoint M p.1 p.2.1 p.2.2 = g p) (pts : List (Pt K)) :
+    mapPts M pts = pts.map g := by
+  simp only [mapPts]
+  exact List.map_congr_left (fun p _ => h p)
+
+/-- the generated `__call__` of an object with an affine matrix, on every tree with a root: the stated matrix about the stated centre -/
+theorem callFn_affine (F : Py.Fld K) (hF : ∀ a b : K, F.div a b = a / b) (tm : List (List K)) (center : String) (ha : IsAffine tm)
+    (ids pids types : List Int) (rs : List K) (pts : List (Pt K)) (root : Pt K) (h : HasRoot pids pts root) :
+    callFn F tm center (treeOf ids pids types pts rs) = some (treeOf ids pids types (mapPts (effective center tm root) pts) rs) :=
+  call_affine F hF center tm ha ids pids types rs pts h.mem root h.at_
+
+/-! ### `Translate` -/
+
+theorem translate_about (tx ty tz cx cy cz x y z : K) :
+    applyPoint (aboutRoot (translate3d tx ty tz) cx cy cz) x y z = (x + tx, y + ty, z + tz) := by
+  simp [applyPoint, aboutRoot, mapply, mmul, dotK, colK, translate3d]
+
+/-- **`Translate(tx, ty, tz[, center=c])(tree)` as translated**: every node moves by exactly the vector — whatever the centre —;
+ids, parents, types, radii are unchanged. -/
+theorem generated_translate_moves (F : Py.Fld K) (hF : ∀ a b : K, F.div a b = a / b) (tx ty tz : K) (kw : Py.Dict String String)
+    (hkw : kw = [] ∨ ∃ c, kw = [("center", c)])
+    (ids pids types : List Int) (rs : List K) (pts : List (Pt K)) (root : Pt K) (h : HasRoot pids pts root) :
+    runObj F (translate_init tx ty tz kw) (treeOf ids pids types pts rs)
+      = some (treeOf ids pids types (pts.map fun p => (p.1 + tx, p.2.1 + ty, p.2.2 + tz)) rs) := by
+  have key : ∀ c : String, callFn F (translate3d tx ty tz) c (treeOf ids pids types pts rs)
+      = some (treeOf ids pids types (pts.map fun p => (p.1 + tx, p.2.1 + ty, p.2.2 + tz)) rs) := by
+    intro c
+    rw [callFn_affine F hF _ c (affine_translate3d _ _ _) ids pids types rs pts root h]
+    congr 2
+    apply mapPts_congr
+    intro p
+    by_cases hc : c = "root" ∨ c = "soma"
+    · simp only [effective, hc, if_true]; exact translate_about ..
+    · simp only [effective, hc, if_false]; exact translate_moves ..
+  rcases hkw with rfl | ⟨c, rfl⟩
+  · rw [translate_init_default]; exact key _
+  · rw [translate_init_center]; exact key _
+
+/-! ### `TranslateOrigin` -/
+
+/-- **`TranslateOrigin.transform(tree)` as translated**: every node moves by minus the root's position, so the root lands on the origin. -/
+theorem generated_translate_origin (F : Py.Fld K) (hF : ∀ a b : K, F.div a b = a / b)
+    (ids pids types : List Int) (rs : List K) (pts : List (Pt K)) (root : Pt K) (h : HasRoot pids pts root) :
+    translate_origin F ids pids types (colX pts) (colY pts) (colZ pts) rs
+      = some (treeOf ids pids types (pts.map fun p => (p.1 - root.1, p.2.1 - root.2.1, p.2.2 - root.2.2)) rs) ∧
+    (pts.map fun p => (p.1 - root.1, p.2.1 - root.2.1, p.2.2 - root.2.2))[pids.idxOf (-1)]? = some (0, 0, 0) := by
+  refine ⟨?_, by simp [h.at_]⟩
+  rw [translate_origin_refines F hF ids pids types rs pts h.mem root h.at_]
+  simp only [treeOf]
+  rw [mapPts_congr _ (fun p => (p.1 - root.1, p.2.1 - root.2.1, p.2.2 - root.2.2))]
+  intro p
+  rw [translate_moves]
+  simp [sub_eq_add_neg]
+
+/-! ### `Scale` -/
+
+/-- **`Scale(sx, sy, sz, center=c)(tree)` as translated**: about the root (`c ∈ {root, soma}`; the signature's default is
+`defaultCenterScale = "root"`, `C12.default_centres`) root-relative offsets are multiplied per axis and the root row stays where it is;
+for any other `c` the coordinates themselves are multiplied. -/
+theorem generated_scale (F : Py.Fld K) (hF : ∀ a b : K, F.div a b = a / b) (sx sy sz : K) (c : String)
+    (ids pids types : List Int) (rs : List K) (pts : List (Pt K)) (root : Pt K) (h : HasRoot pids pts root) :
+    runObj F (scale_init sx sy sz c []) (treeOf ids pids types pts rs)
+      = some (treeOf ids pids types
+          (pts.map fun p => if c = "root" ∨ c = "soma"
+            then (root.1 + sx * (p.1 - root.1), root.2.1 + sy * (p.2.1 - root.2.1), root.2.2 + sz * (p.2.2 - root.2.2))
+            else (sx * p.1, sy * p.2.1, sz * p.2.2)) rs) := by
+  rw [scale_init_eq]
+  simp only [runObj, Option.bind_some]
+  rw [callFn_affine F hF _ c (affine_scale3d _ _ _) ids pids types rs pts root h]
+  congr 2
+  apply mapPts_congr
+  intro p
+  by_cases hc : c = "root" ∨ c = "soma"
+  · simp only [effective, hc, if_true]; exact scale_about_root ..
+  · simp only [effective, hc, if_false]; exact scale_origin ..
+
+/-- the root row of a tree scaled about its root stays fixed -/
+theorem generated_scale_root_fixed (sx sy sz : K) (pids : List Int) (pts : List (Pt K)) (root : Pt K) (h : HasRoot pids pts root) :
+    (pts.map fun p => (root.1 + sx * (p.1 - root.1), root.2.1 + sy * (p.2.1 - root.2.1), root.2.2 + sz * (p.2.2 - root.2.2)))[
+      pids.idxOf (-1)]? = some root := by
+  simp [h.at_]
+
+/-! ### `RotateX / RotateY / RotateZ`, `Rotate` -/
+
+/-- the map a rotation class applies to every node: the builder's matrix about the stated centre -/
+def rotMap (M : List (List K)) (c : String) (root : Pt K) (p : Pt K) : Pt K :=
+  applyPoint (effective c M root) p.1 p.2.1 p.2.2
+
+/-- **`RotateX(θ, center=c)(tree)`, `RotateY`, `RotateZ` as translated** (`c s` = cos θ, sin θ): every node is moved by the matrix of
+the matching builder about the stated centre -/
+theorem generated_rotate_axis (F : Py.Fld K) (hF : ∀ a b : K, F.div a b = a / b) (c s : K) (cen : String)
+    (ids pids types : List Int) (rs : List K) (pts : List (Pt K)) (root : Pt K) (h : HasRoot pids pts root) :
+    runObj F (rotate_x_init c s cen []) (treeOf ids pids types pts rs)
+      = some (treeOf ids pids types (pts.map (rotMap (rotate3d_x c s) cen root)) rs) ∧
+    runObj F (rotate_y_init c s cen []) (treeOf ids pids types pts rs)
+      = some (treeOf ids pids types (pts.map (rotMap (rotate3d_y c s) cen root)) rs) ∧
+    runObj F (rotate_z_init c s cen []) (treeOf ids pids types pts rs)
+      = some (treeOf ids pids types (pts.map (rotMap (rotate3d_z c s) cen root)) rs) := by
+  refine ⟨?_, ?_, ?_⟩
+  · rw [rotate_x_init_eq]; exact callFn_affine F hF _ cen (affine_rotate3d_x _ _) ids pids types rs pts root h
+  · rw [rotate_y_init_eq]; exact callFn_affine F hF _ cen (affine_rotate3d_y _ _) ids pids types rs pts root h
+  · rw [rotate_z_init_eq]; exact callFn_affine F hF _ cen (affine_rotate3d_z _ _) ids pids types rs pts root h
+
+/-- **`Rotate(n, θ, center=c)(tree)` as translated**, `rotate3d(n, θ)` being the Rodrigues matrix of `Gen/Matrices.lean` -/
+theorem generated_rotate (F : Py.Fld K) (hF : ∀ a b : K, F.div a b = a / b) (nx ny nz c s : K) (cen : String)
+    (ids pids types : List Int) (rs : List K) (pts : List (Pt K)) (root : Pt K) (h : HasRoot pids pts root) :
+    runObj F (rotate_init (rotate3d nx ny nz c s) cen []) (treeOf ids pids types pts rs)
+      = some (treeOf ids pids types (pts.map (rotMap (rotate3d nx ny nz c s) cen root)) rs) := by
+  rw [rotate_init_eq]; exact callFn_affine F hF _ cen (affine_rotate3d ..) ids pids types rs pts root h
+
+/-- what `rotMap` does, for the axis rotations (`c² + s² = 1`): the chosen centre (the root, or the origin) stays fixed and ALL
+inter-node distances are preserved -/
+theorem rotMap_axis_rigid (c s : K) (hcs : c * c + s * s = 1) (cen : String) (root : Pt K) :
+    (∀ M ∈ [rotate3d_x c s, rotate3d_y c s, rotate3d_z c s],
+      (∀ p q : Pt K, d2 (rotMap M cen root p) (rotMap M cen root q) = d2 p q) ∧
+      ((cen = "root" ∨ cen = "soma") → rotMap M cen root root = root) ∧
+      (¬ (cen = "root" ∨ cen = "soma") → rotMap M cen root (0, 0, 0) = (0, 0, 0))) := by
+  obtain ⟨rx, ry, rz⟩ := root
+  have hfix := rotate_root_fixed c s rx ry rz
+  intro M hM
+  simp only [List.mem_cons, List.not_mem_nil, or_false] at hM
+  refine ⟨?_, ?_, ?_⟩
+  · rintro ⟨x, y, z⟩ ⟨x', y', z'⟩
+    by_cases hc : cen = "root" ∨ cen = "soma"
+    · simp only [rotMap, effective, hc, if_true]
+      have := rotate_axis_isometry c s rx ry rz x y z x' y' z' hcs
+      rcases hM with rfl | rfl | rfl
+      exacts [this.1, this.2.1, this.2.2]
+    · simp only [rotMap, effective, hc, if_false]
+      have := rotate_axis_isometry_origin c s x y z x' y' z' hcs
+      rcases hM with rfl | rfl | rfl
+      exacts [this.1, this.2.1, this.2.2]
+  · intro hc
+    simp only [rotMap, effective, hc, if_true]
+    rcases hM with rfl | rfl | rfl
+    exacts [hfix.1, hfix.2.1, hfix.2.2]
+  · intro hc
+    simp only [rotMap, effective, hc, if_false]
+    rcases hM with rfl | rfl | rfl <;>
+      simp [applyPoint, mapply, dotK, rotate3d_x, rotate3d_y, rotate3d_z]
+
+/-- Rodrigues rotation about a unit axis, about the origin: all distances preserved, the axis fixed -/
+theorem rotMap_rodrigues_rigid (nx ny nz c s : K) (hn : nx * nx + ny * ny + nz * nz = 1) (hcs : c * c + s * s = 1) (cen : String)
+    (hc : ¬ (cen = "root" ∨ cen = "soma")) (root : Pt K) :
+    (∀ p q : Pt K, d2 (rotMap (rotate3d nx ny nz c s) cen root p) (rotMap (rotate3d nx ny nz c s) cen root q) = d2 p q) ∧
+    (∀ t : K, rotMap (rotate3d nx ny nz c s) cen root (t * nx, t * ny, t * nz) = (t * nx, t * ny, t * nz)) := by
+  refine ⟨?_, ?_⟩
+  · rintro ⟨x, y, z⟩ ⟨x', y', z'⟩
+    simp only [rotMap, effective, hc, if_false]
+    exact rodrigues_isometry nx ny nz c s x y z x' y' z' hn hcs
+  · intro t
+    simp only [rotMap, effective, hc, if_false]
+    exact rodrigues_fixes_axis nx ny nz c s t hn
+
+/-! ### `Transforms.__call__`: pipelines, and a transform followed by its inverse -/
+
+theorem effective_root (M : List (List K)) (r : Pt K) : effective "root" M r = aboutRoot M r.1 r.2.1 r.2.2 := by
+  simp [effective]
+theorem effective_soma (M : List (List K)) (r : Pt K) : effective "soma" M r = aboutRoot M r.1 r.2.1 r.2.2 := by
+  simp [effective]
+theorem effective_origin (M : List (List K)) (r : Pt K) : effective "origin" M r = M := by
+  simp [effective]
+
+/-- **`Transforms(t₁, …, tₙ)(tree)` as translated** is the left-to-right composition of its members (the first exception ends it) -/
+theorem generated_pipeline {X : Type} [Inhabited X] (fs : List (X → Option X)) (x : X) :
+    transforms_call fs x = fs.foldlM (fun x f => f x) x := transforms_call_refines fs x
+
+theorem generated_pipeline_two {X : Type} [Inhabited X] (f g : X → Option X) (x : X) :
+    transforms_call [f, g] x = (f x).bind g := by
+  rw [transforms_call_refines]
+  cases h : f x <;> simp [List.foldlM, h]
+
+/-- two affine transform objects one after the other, on every tree with a root: the second one is applied about ITS centre of the
+tree it is given (the root of the moved tree) -/
+theorem generated_two_steps (F : Py.Fld K) (hF : ∀ a b : K, F.div a b = a / b) (tm1 tm2 : List (List K)) (c1 c2 : String)
+    (h1 : IsAffine tm1) (h2 : IsAffine tm2)
+    (ids pids types : List Int) (rs : List K) (pts : List (Pt K)) (root : Pt K) (h : HasRoot pids pts root) :
+    transforms_call [callFn F tm1 c1, callFn F tm2 c2] (treeOf ids pids types pts rs)
+      = some (treeOf ids pids types
+          (pts.map fun p => rotMap tm2 c2 (rotMap tm1 c1 root root) (rotMap tm1 c1 root p)) rs) := by
+  rw [generated_pipeline_two, callFn_affine F hF tm1 c1 h1 ids pids types rs pts root h]
+  simp only [Option.bind_some]
+  have h' : HasRoot pids (mapPts (effective c1 tm1 root) pts) (rotMap tm1 c1 root root) :=
+    ⟨h.mem, by simp [mapPts, h.at_, rotMap]⟩
+  rw [callFn_affine F hF tm2 c2 h2 ids pids types rs _ _ h']
+  simp [mapPts, rotMap, List.map_map, Function.comp_def]
+
+/-- **a transform followed by its inverse restores the original coordinates** — as translated, on whole trees, through the
+generated `Transforms.__call__`: `Translate(t)` then `Translate(−t)` (any centres), `Scale(s)` then `Scale(1/s)` (`s ≠ 0` per axis;
+both about the origin, or both about the root — which the first step leaves fixed), `RotateZ/X/Y(θ)` then `(−θ)` (both about the origin). -/
+theorem generated_inverse_restores (F : Py.Fld K) (hF : ∀ a b : K, F.div a b = a / b) (tx ty tz sx sy sz c s : K)
+    (hx : sx ≠ 0) (hy : sy ≠ 0) (hz : sz ≠ 0) (hcs : c * c + s * s = 1) (c1 c2 : String)
+    (ids pids types : List Int) (rs : List K) (pts : List (Pt K)) (root : Pt K) (h : HasRoot pids pts root) :
+    transforms_call [callFn F (translate3d tx ty tz) c1, callFn F (translate3d (-tx) (-ty) (-tz)) c2] (treeOf ids pids types pts rs)
+      = some (treeOf ids pids types pts rs) ∧
+    transforms_call [callFn F (scale3d sx sy sz) "origin", callFn F (scale3d (1 / sx) (1 / sy) (1 / sz)) "origin"]
+      (treeOf ids pids types pts rs) = some (treeOf ids pids types pts rs) ∧
+    transforms_call [callFn F (scale3d sx sy sz) "root", callFn F (scale3d (1 / sx) (1 / sy) (1 / sz)) "root"]
+      (treeOf ids pids types pts rs) = some (treeOf ids pids types pts rs) ∧
+    transforms_call [callFn F (rotate3d_z c s) "origin", callFn F (rotate3d_z c (-s)) "origin"] (treeOf ids pids types pts rs)
+      = some (treeOf ids pids types pts rs) ∧
+    transforms_call [callFn F (rotate3d_x c s) "origin", callFn F (rotate3d_x c (-s)) "origin"] (treeOf ids pids types pts rs)
+      = some (treeOf ids pids types pts rs) ∧
+    transforms_call [callFn F (rotate3d_y c s) "origin", callFn F (rotate3d_y c (-s)) "origin"] (treeOf ids pids types pts rs)
+      = some (treeOf ids pids types pts rs) := by
+  have inv := fun x y z => inverse_restores tx ty tz sx sy sz c s x y z hx hy hz hcs
+  have fin : ∀ g : Pt K → Pt K, (∀ p, g p = p) →
+      some (treeOf ids pids types (pts.map g) rs) = some (treeOf ids pids types pts rs) := by
+    intro g hg
+    have : pts.map g = pts := by
+      conv_rhs => rw [← List.map_id pts]
+      exact List.map_congr_left (fun p _ => hg p)
+    rw [this]
+  refine ⟨?_, ?_, ?_, ?_, ?_, ?_⟩
+  · rw [generated_two_steps F hF _ _ c1 c2 (affine_translate3d ..) (affine_translate3d ..) ids pids types rs pts root h]
+    apply fin
+    rintro ⟨x, y, z⟩
+    have t1 : ∀ (c : String) (r p : Pt K) (a b d : K), rotMap (translate3d a b d) c r p = (p.1 + a, p.2.1 + b, p.2.2 + d) := by
+      intro c r p a b d
+      by_cases hc : c = "root" ∨ c = "soma"
+      · simp only [rotMap, effective, hc, if_true]; exact translate_about ..
+      · simp only [rotMap, effective, hc, if_false]; exact translate_moves ..
+    simp [t1]
+  · rw [generated_two_steps F hF _ _ _ _ (affine_scale3d ..) (affine_scale3d ..) ids pids types rs pts root h]
+    apply fin
+    rintro ⟨x, y, z⟩
+    simp only [rotMap, effective_origin]
+    exact (inv x y z).2.1
+  · rw [generated_two_steps F hF _ _ _ _ (affine_scale3d ..) (affine_scale3d ..) ids pids types rs pts root h]
+    apply fin
+    rintro ⟨x, y, z⟩
+    obtain ⟨rx, ry, rz⟩ := root
+    simp only [rotMap, effective_root, scale_about_root, scale_root_fixed]
+    refine Prod.ext ?_ (Prod.ext ?_ ?_) <;> simp only <;> field_simp <;> ring
+  · rw [generated_two_steps F hF _ _ _ _ (affine_rotate3d_z ..) (affine_rotate3d_z ..) ids pids types rs pts root h]
+    apply fin
+    rintro ⟨x, y, z⟩
+    simp only [rotMap, effective_origin]
+    exact (inv x y z).2.2.1
+  · rw [generated_two_steps F hF _ _ _ _ (affine_rotate3d_x ..) (affine_rotate3d_x ..) ids pids types rs pts root h]
+    apply fin
+    rintro ⟨x, y, z⟩
+    simp only [rotMap, effective_origin]
+    exact (inv x y z).2.2.2.1
+  · rw [generated_two_steps F hF _ _ _ _ (affine_rotate3d_y ..) (affine_rotate3d_y ..) ids pids types rs pts root h]
+    apply fin
+    rintro ⟨x, y, z⟩
+    simp only [rotMap, effective_origin]
+    exact (inv x y z).2.2.2.2
+
+/-! ### non-vacuity: the generated classes evaluated by the kernel on small trees over ℚ -/
+
+abbrev ratFld : Py.Fld ℚ := Py.ratFld
+set_option synthInstance.maxSize 1024 in
+instance decEqGTree : DecidableEq (GTree ℚ) := inferInstance
+
+/-- `Scale(2, 2, 2)` (default centre, root at (5,5,5)) : the root stays, the offsets double; parents / types / radii untouched -/
+example : runObj ratFld (scale_init (2 : ℚ) 2 2 defaultCenterScale []) (treeOf [0, 1, 2] [-1, 0, 1] [1, 3, 3] [(5, 5, 5), (6, 5, 5), (7, 1, 2)] [1, 1, 1])
+    = some (treeOf [0, 1, 2] [-1, 0, 1] [1, 3, 3] [(5, 5, 5), (7, 5, 5), (9, -3, -1)] [1, 1, 1]) := by decide +kernel
+/-- `center="soma"` is the root as well (a change that loses `"soma"` breaks `RefineAffine.call_root` and this) -/
+example : callFn ratFld (scale3d (2 : ℚ) 2 2) "soma" (treeOf [0, 1] [-1, 0] [1, 3] [(5, 5, 5), (6, 5, 5)] [1, 1])
+    = some (treeOf [0, 1] [-1, 0] [1, 3] [(5, 5, 5), (7, 5, 5)] [1, 1]) := by decide +kernel
+/-- a root that is NOT the first row: the first row whose parent is −1 is the centre -/
+example : callFn ratFld (scale3d (2 : ℚ) 2 2) "root" (treeOf [0, 1] [1, -1] [3, 1] [(6, 5, 5), (5, 5, 5)] [1, 1])
+    = some (treeOf [0, 1] [1, -1] [3, 1] [(7, 5, 5), (5, 5, 5)] [1, 1]) := by decide +kernel
+/-- no root row: `__call__` raises for `center="root"` -/
+example : callFn ratFld (scale3d (2 : ℚ) 2 2) "root" (treeOf [0, 1] [1, 0] [3, 1] [(6, 5, 5), (5, 5, 5)] [1, 1]) = none := by decide +kernel
+example : runObj ratFld (translate_init (1 : ℚ) 2 3 [("center", "root")]) (treeOf [0, 1] [-1, 0] [1, 3] [(5, 5, 5), (6, 5, 5)] [1, 1])
+    = some (treeOf [0, 1] [-1, 0] [1, 3] [(6, 7, 8), (7, 7, 8)] [1, 1]) := by decide +kernel
+/-- a quarter turn about z about the root, then `TranslateOrigin`, through `Transforms.__call__` -/
+example : transforms_call [fun t => runObj ratFld (rotate_z_init (0 : ℚ) 1 defaultCenterRotateZ []) t,
+      fun t => translate_origin ratFld t.1 t.2.1 t.2.2.1 t.2.2.2.1 t.2.2.2.2.1 t.2.2.2.2.2.1 t.2.2.2.2.2.2]
+      (treeOf [0, 1] [-1, 0] [1, 3] [(5, 5, 5), (6, 5, 5)] [1, 1])
+    = some (treeOf [0, 1] [-1, 0] [1, 3] [(0, 0, 0), (0, 1, 0)] [1, 1]) := by decide +kernel
+/-- an unexpected keyword raises (TypeError), as does `center=` given twice -/
+example : translate_init (1 : ℚ) 2 3 [("centre", "root")] = none := by decide +kernel
+example : scale_init (1 : ℚ) 2 3 "root" [("center", "root")] = none := by decide +kernel
+example : HasRoot [-1, 0, 1] [((5 : ℚ), (5 : ℚ), (5 : ℚ)), (6, 5, 5), (7, 1, 2)] (5, 5, 5) := ⟨by decide, by decide⟩
 end C12
